@@ -394,7 +394,7 @@ func c03r4(r *R) {
 		}
 	})
 	oP.Check(okMin, "the number of priority entries rendered is not min(len(f.Priorities), maxPriorityFrames) (phi of the two under `len < max`)")
-	pIdx := "p0.Priorities[:" + minE + "][" + idx + "]"
+	pIdx := "p0.Priorities[" + idx + "]"
 	sid := find(func(w bufWrite) bool { return w.Text == "%d:" })
 	if oP.Check(len(sid) == 1, "expected one stream-id write, found %d", len(sid)) {
 		oP.AtI(sid[0].I).Check(len(sid[0].Args) == 1 && sid[0].Args[0] == pIdx+".StreamId", "priority stream id is rendered from %v, want p.StreamId of f.Priorities[:min][i]", sid[0].Args)
